@@ -537,6 +537,7 @@ func (p *ServiceProcessor) ProcessClientStreamRequest(req *http.Request, path st
 				case <-stopServiceChan:
 					return
 				default:
+					verifAt("stream.stopperClose", stopServiceChan)
 					close(stopServiceChan)
 				}
 			}()
